@@ -47,7 +47,7 @@ func buildInputs(ctx *core.Ctx, paths []ModelPath, withRest bool) ([]Input, map[
 	add(AttrHazards())
 	add(ValueKindHazards())
 	add(LongTailInputs())
-	add(LiteralHazards())
+	add(LiteralHazards(ctx.Thorough()))
 	// (c) prefixes and (d) token mutations of the corpus and of generated files
 	files, err := CorpusFiles()
 	if err != nil {
@@ -430,6 +430,8 @@ func entryName(in *Input) string {
 		return "parse.Expr"
 	case "globals":
 		return "soy.ParseGlobals"
+	case "bundle":
+		return "soy.Bundle.Compile"
 	}
 	return "parse.SoyFile"
 }
